@@ -213,6 +213,9 @@ class FuncFacts(object):
                     if isinstance(a, (ast.Attribute, ast.Name, ast.Subscript)) and not (isinstance(a, ast.Subscript) and isinstance(a.slice, ast.Slice)):
                         out |= {x for x in self.prov(a, stack) if x != "fresh" and not x.startswith("global:")}
                 return out
+            if nm in ("list", "tuple", "set", "frozenset", "sorted") and len(e.args) == 1 and not self.eff.own_mode and isinstance(f, ast.Name):
+                # a new container with the elements of the old one: itself fresh, its content what the argument held
+                return {"fresh"} | {_starred(x) for x in self.prov(e.args[0], stack) if x != "fresh" and not x.startswith("global:")}
             if nm in FRESH_CALLS:
                 return {"fresh"}
             if nm in PASS_THROUGH:
@@ -225,6 +228,16 @@ class FuncFacts(object):
                 if nm in ("get", "setdefault", "pop") and len(e.args) > 1:
                     out |= self.prov(e.args[1], stack)
                 return out
+            # a class of the code base instantiated: a new object, which holds what its constructor was handed
+            if isinstance(f, ast.Name):
+                tgt = self.eff.p.lookup(self.fi.module.name, f.id)
+                if isinstance(tgt, ClassInfo) and tgt.module is not None:
+                    if self.eff.own_mode:
+                        return {"fresh"}
+                    out = {"fresh"}
+                    for a in list(e.args) + [k.value for k in e.keywords]:
+                        out |= {x for x in self.prov(a, stack) if x != "fresh" and not x.startswith("global:")}
+                    return out
             # repo callee: what it returns
             callees = self.eff.resolve_call(self.fi, e)
             if callees:
@@ -350,6 +363,40 @@ class Effects(object):
             self._facts[k] = FuncFacts(self, fi)
         return self._facts[k]
 
+    def attr_container_fresh(self, ci, attr: str) -> bool:
+        """is the container the instances of ``ci`` keep under ``attr`` always one the class created itself (every
+        `self.attr = <expr>` in its methods binds a new object)?  Then writing into it touches nothing handed in."""
+        if ci is None:
+            return False
+        cache = self.__dict__.setdefault("_attr_fresh", {})
+        k = (id(ci), attr)
+        if k in cache:
+            return cache[k]
+        cache[k] = False
+        binds = 0
+        ok = True
+        for c in self.p.mro(ci):
+            if not isinstance(c, ClassInfo):
+                continue
+            for raw in c.attrs.values():
+                if not isinstance(raw, FuncInfo) or not raw.node.args.args:
+                    continue
+                me = raw.node.args.args[0].arg
+                gf = self.facts(raw)
+                for n in ast.walk(raw.node):
+                    tgts = n.targets if isinstance(n, ast.Assign) else [n.target] if isinstance(n, (ast.AnnAssign, ast.AugAssign)) else []
+                    for t in tgts:
+                        for tt in (t.elts if isinstance(t, (ast.Tuple, ast.List)) else [t]):
+                            if isinstance(tt, ast.Attribute) and tt.attr == attr and isinstance(tt.value, ast.Name) and tt.value.id == me:
+                                binds += 1
+                                v = getattr(n, "value", None)
+                                if v is None or isinstance(n, ast.AugAssign) or not isinstance(t, ast.Attribute):
+                                    ok = False
+                                elif self.in_own_mode(lambda: gf.prov(v)) - {"fresh"}:
+                                    ok = False
+        cache[k] = bool(binds) and ok
+        return cache[k]
+
     def in_own_mode(self, fn):
         saved, self.own_mode = self.own_mode, True
         try:
@@ -442,7 +489,15 @@ class Effects(object):
                 for tt in (t.elts if isinstance(t, (ast.Tuple, ast.List)) else [t]):
                     if isinstance(tt, (ast.Attribute, ast.Subscript)):
                         own = isinstance(tt.value, ast.Name)
-                        roots = ff.own_prov(tt.value.id) if own else ff.prov(tt.value)
+                        if isinstance(tt, ast.Subscript) and isinstance(tt.value, ast.Attribute) and isinstance(tt.value.value, ast.Name) \
+                                and tt.value.value.id == ff.self_name:
+                            # self.table[key] = value: a container attribute of the object itself is written; what it
+                            # holds (keys, values) is not what is mutated
+                            roots = {"self." + tt.value.attr}
+                            if fi.owner is not None and fi.owner.name != "AssemblyManager" and self.attr_container_fresh(fi.owner, tt.value.attr):
+                                roots = {"fresh"}  # a table the class made itself
+                        else:
+                            roots = ff.own_prov(tt.value.id) if own else ff.prov(tt.value)
                         out.append(Site(fi, node, kind, tt, roots, own=own))
             if isinstance(node, ast.Call) and isinstance(node.func, ast.Attribute) and node.func.attr in MUTATORS:
                 recv = node.func.value
@@ -456,6 +511,8 @@ class Effects(object):
                 if isinstance(recv, ast.Attribute) and isinstance(recv.value, ast.Name) and recv.value.id == ff.self_name:
                     # a container attribute of the object itself: what it holds is not what is mutated
                     roots = {"self." + recv.attr}
+                    if fi.owner is not None and fi.owner.name != "AssemblyManager" and self.attr_container_fresh(fi.owner, recv.attr):
+                        roots = {"fresh"}  # a table the class made itself
                 elif not own and path and all(step.startswith(".") for step in path) and root != ff.self_name:
                     # x.a.b.append(v): the container is reached from x by attributes only -- what was stored *into* x (or
                     # into one of its containers) earlier is not on the way
@@ -677,6 +734,12 @@ def _is_reference_list(site: Site, root: Optional[str]) -> bool:
         return False
     guards = [n for n in ast.walk(fn) if isinstance(n, ast.Compare) and any(isinstance(op, (ast.In, ast.NotIn)) for op in n.ops)
               and any(isinstance(c, ast.Name) and c.id == root for c in n.comparators)]
+    # ... or found out by the one-scan form: try: <root>.index(x) / except ValueError: <root>.append(x)
+    for t in ast.walk(fn):
+        if isinstance(t, ast.Try) and any(isinstance(c, ast.Call) and isinstance(c.func, ast.Attribute) and c.func.attr == "index"
+                                          and isinstance(c.func.value, ast.Name) and c.func.value.id == root for b in t.body for c in ast.walk(b)):
+            if any(h.type is not None and "ValueError" in ast.unparse(h.type) for h in t.handlers):
+                guards.append(t)
     return bool(guards)
 
 
@@ -737,8 +800,25 @@ def assembly_write_set(ctx, rule_prefix: str):
     seen = set()
     n_input = 0
     listing = []
+    mgr_cls = entry.owner
+
+    def through_properties(roots, depth=2):
+        """self.<name> where <name> is a (cached) property of the manager: what the property hands out"""
+        out = set()
+        for x in roots:
+            attr = x[5:].rstrip("*").split(".")[0].split("[")[0] if x.startswith("self.") else None
+            _, raw = p.class_attr_def(mgr_cls, attr) if attr else (None, None)
+            if isinstance(raw, FuncInfo) and raw.kind == "property" and depth > 0:
+                got = eff.returns(raw)
+                got = {(_starred(y) if x.endswith("*") else y) for y in got}
+                out |= through_properties(got, depth - 1)
+            else:
+                out.add(x)
+        return out
+
     for s in sites:
         key = (s.where, s.kind, s.text())
+        s.roots = through_properties(s.roots)
         hits = sorted(x for x in s.roots if x.startswith(INPUT_ROOTS) or (x.startswith("param:") and s.fi in (entry2,)) )
         if s.fi is init:
             # the manager under construction: stores into self.<attr> are stores into the fresh manager
@@ -870,6 +950,8 @@ def persistent_state_rule(ctx, rule: str, scope_modules=("moclo.core._structured
                 if isinstance(node, ast.Call) and isinstance(node.func, ast.Name) and node.func.id == "setattr" and node.args and _is_class_expr(node.args[0], cls_like, first, kind):
                     slot_writes.append(("<setattr>", node, "attr"))
             for slot, node, how in slot_writes:
+                if fn.name == "__init_subclass__" and how != "keyed":
+                    continue  # runs once for every class when it is created: the class's own attribute, not a memo
                 value = node.value if isinstance(node, (ast.Assign, ast.AugAssign)) else node
                 deps = _names(value)
                 inst_dep = kind != "classmethod" and first in deps and not _is_class_expr_only(value, first)
@@ -878,10 +960,10 @@ def persistent_state_rule(ctx, rule: str, scope_modules=("moclo.core._structured
                 construct = "%s#%s" % (qn, slot)
                 if how == "keyed":
                     key = node.targets[0].slice if isinstance(node, ast.Assign) else node.target.slice
-                    ok = _names(value) - {"DNARegex", "re"} <= _bare_names(key) | _module_consts(mod)
+                    ok, vd, kd = _keyed_ok(fn, mod, key, value)
                     _emit(r, label, rule + ".class-slot", construct, ok,
-                          "class-level container written at call time is not keyed by everything its value depends on (value uses %s, key uses %s)"
-                          % (sorted(_bare_names(value)), sorted(_bare_names(key))), where, node)
+                          "class-level container written at call time is not keyed by everything its value depends on (value computed from %s, key from %s)"
+                          % (sorted(vd), sorted(kd)), where, node)
                     continue
                 if inst_dep:
                     _emit(r, label, rule + ".class-slot", construct, False,
@@ -897,8 +979,9 @@ def persistent_state_rule(ctx, rule: str, scope_modules=("moclo.core._structured
                             if isinstance(n3, ast.Call) and isinstance(n3.func, ast.Name) and n3.func.id in ("getattr", "hasattr") and len(n3.args) >= 2 \
                                     and _is_class_expr(n3.args[0], cls_like, first, kind) and isinstance(n3.args[1], ast.Constant) and n3.args[1].value == slot:
                                 mro_reads.append(n3)
-                own = _has_own_namespace_guard(fn, slot, cls_like, first, kind) or _has_init_subclass_reset(p, fi, slot)
-                ok = not mro_reads and own
+                reset = _has_init_subclass_reset(p, fi, slot)  # every class is given its own slot when it is created
+                own = _has_own_namespace_guard(fn, slot, cls_like, first, kind) or reset
+                ok = own and (reset or not mro_reads)
                 why = ("the guard reads `%s` through the MRO (a subclass sees its parent's value)" % slot) if mro_reads else \
                       ("the write of `%s` is not guarded by a read in the class's own namespace (cls.__dict__ / vars(cls))" % slot)
                 _emit(r, label, rule + ".class-slot", construct, ok,
@@ -939,14 +1022,31 @@ def persistent_state_rule(ctx, rule: str, scope_modules=("moclo.core._structured
                 if hit:
                     name, nd, key, val = hit
                     if key is not None:
-                        ok = (_names(val) - {"DNARegex", "re"}) <= (_bare_names(key) | _module_consts(mod))
-                        det = "module-level cache `%s` written at call time is not keyed by everything its value depends on (value uses %s, key uses %s)" % (
-                            name, sorted(_bare_names(val)), sorted(_bare_names(key)))
+                        ok, vd, kd = _keyed_ok(fn, mod, key, val)
+                        det = "module-level cache `%s` written at call time is not keyed by everything its value depends on (value computed from %s, key from %s)" % (
+                            name, sorted(vd), sorted(kd))
+                    elif isinstance(nd, ast.Call) and isinstance(nd.func, ast.Attribute) and nd.func.attr == "add" and len(nd.args) == 1:
+                        # a set of inputs already dealt with (vetted enzymes): sound when every parameter the function's
+                        # decisions read is part of what is recorded
+                        tests = [t.test for t in ast.walk(fn) if isinstance(t, (ast.If, ast.IfExp, ast.While))]
+                        import builtins
+                        consts = _module_consts(mod) | set(dir(builtins))
+                        decided = set()
+                        for t in tests:
+                            decided |= _param_deps(fn, t) - consts
+                        kd = _param_deps(fn, nd.args[0]) - consts
+                        ok = decided <= kd
+                        det = "module-level set `%s` records %s but the function's decisions also read %s: a later call is skipped on too little" % (
+                            name, sorted(kd), sorted(decided - kd))
                     else:
                         ok = False
                         det = "module-level state `%s` is modified at call time and outlives the call" % name
                     _emit(r, label, rule + ".module-state", "%s#%s" % (qn, name), ok, det, where, nd)
     r.analysed["class_level_slots_written_at_call_time"] = n_class_slots
+    # library memo decorators are persistent state too (the evaluators look through them)
+    ctx.guard(memo_purity_rule, ctx, rule + ".memo-purity")
+    # ... and so is what a descriptor class of the code base keeps on the class it is read from
+    ctx.guard(descriptor_cache_rule, ctx, rule + ".class-slot")
     if n_class_slots < 1:
         # no cache at all is an accepted idiom, but then the anchor must say so
         from .roles import regex_getter
@@ -955,6 +1055,142 @@ def persistent_state_rule(ctx, rule: str, scope_modules=("moclo.core._structured
         r.ob(rule + ".class-slot", gr.qualname + "#<none>", True, "", gr.where())
     if not getattr(r, "_fixture_fired", False):
         raise AnalysisError("the positive fixture of the persistent-state rule did not match: the rule is dead")
+
+
+def _pure_chain(e: ast.AST) -> bool:
+    while isinstance(e, ast.Attribute):
+        e = e.value
+    return isinstance(e, ast.Name)
+
+
+def _bare_key_names(key: ast.AST) -> Set[str]:
+    """what a cache key contains *as the objects themselves*: the key, an element of a key tuple, id(<x>) or str(<x>) of
+    one (text keys: what is formatted into the value is its str()), an attribute chain standing as an element
+    (`cls.cutter`: the atom "cls.cutter").  A name that only occurs under a call or a subscript, or an attribute of it
+    where the value uses the object itself, is a projection (cls.__name__, cutter.site) and does not count"""
+    out: Set[str] = set()
+    if isinstance(key, ast.Name):
+        out.add(key.id)
+    elif isinstance(key, ast.Attribute) and _pure_chain(key):
+        out.add(ast.unparse(key))
+    elif isinstance(key, (ast.Tuple, ast.List)):
+        for x in key.elts:
+            out |= _bare_key_names(x)
+    elif isinstance(key, ast.Call) and isinstance(key.func, ast.Name) and key.func.id in ("id", "str") and len(key.args) == 1 and not key.keywords:
+        out |= _bare_key_names(key.args[0])
+    elif isinstance(key, ast.Starred):
+        out |= _bare_key_names(key.value)
+    return out
+
+
+def _atoms_in(e: ast.AST, stop: Optional[Set[str]]) -> List[str]:
+    """names an expression mentions; an attribute chain that is itself an atom of `stop` counts as that atom (the object
+    it hangs on is then not mentioned by it)"""
+    out: List[str] = []
+    todo = [e]
+    while todo:
+        n = todo.pop()
+        if stop and isinstance(n, ast.Attribute) and _pure_chain(n) and ast.unparse(n) in stop:
+            out.append(ast.unparse(n))
+            continue
+        if isinstance(n, ast.Name):
+            out.append(n.id)
+            continue
+        todo.extend(ast.iter_child_nodes(n))
+    return out
+
+
+def _param_deps(fn: ast.FunctionDef, e: ast.AST, _seen=None, stop: Optional[Set[str]] = None) -> Set[str]:
+    """the names an expression depends on, locals replaced (transitively) by what they were computed from -- the values
+    bound to them and the tests that choose between bindings: parameters, module-level names and builtins remain (atoms
+    in `stop` are not looked through)"""
+    params = {a.arg for a in fn.args.posonlyargs + fn.args.args + fn.args.kwonlyargs}
+    if fn.args.vararg:
+        params.add(fn.args.vararg.arg)
+    if fn.args.kwarg:
+        params.add(fn.args.kwarg.arg)
+    binds: Dict[str, List[ast.AST]] = {}
+    parents: Dict[int, ast.AST] = {}
+    for n in ast.walk(fn):
+        for ch in ast.iter_child_nodes(n):
+            parents[id(ch)] = n
+
+    def choosing_tests(node) -> List[ast.AST]:
+        """tests of the if/while statements a binding sits in (in a branch, not in the test); a branch whose sibling only
+        raises or returns does not choose between bindings, but counting its test errs on the safe side only when the
+        test reads something the key lacks -- guards like `if x is None:` around the computation read the memo itself"""
+        out = []
+        cur = node
+        while id(cur) in parents:
+            par = parents[id(cur)]
+            if isinstance(par, (ast.If, ast.While)) and cur is not par.test:
+                out.append(par.test)
+            if isinstance(par, ast.IfExp) and cur is not par.test:
+                out.append(par.test)
+            if par is fn:
+                break
+            cur = par
+        return out
+
+    multi: Dict[str, int] = {}
+    for n in ast.walk(fn):
+        if isinstance(n, ast.Assign):
+            for t in n.targets:
+                for x in ast.walk(t):
+                    if isinstance(x, ast.Name) and isinstance(x.ctx, ast.Store):
+                        binds.setdefault(x.id, []).append(n.value)
+                        multi[x.id] = multi.get(x.id, 0) + 1
+        elif isinstance(n, ast.AugAssign) and isinstance(n.target, ast.Name):
+            binds.setdefault(n.target.id, []).append(n.value)
+            multi[n.target.id] = multi.get(n.target.id, 0) + 1
+        elif isinstance(n, (ast.For, ast.comprehension)):
+            for x in ast.walk(n.target):
+                if isinstance(x, ast.Name):
+                    binds.setdefault(x.id, []).append(n.iter)
+        elif isinstance(n, ast.NamedExpr):
+            binds.setdefault(n.target.id, []).append(n.value)
+        elif isinstance(n, ast.withitem) and n.optional_vars is not None:
+            for x in ast.walk(n.optional_vars):
+                if isinstance(x, ast.Name):
+                    binds.setdefault(x.id, []).append(n.context_expr)
+    # a name bound in several places: which binding reaches a use is chosen by the tests around them
+    for n in ast.walk(fn):
+        if isinstance(n, (ast.Assign, ast.AugAssign)):
+            tgts = n.targets if isinstance(n, ast.Assign) else [n.target]
+            for t in tgts:
+                for x in ast.walk(t):
+                    if isinstance(x, ast.Name) and isinstance(x.ctx, ast.Store) and multi.get(x.id, 0) > 1:
+                        binds[x.id].extend(choosing_tests(n))
+    out: Set[str] = set()
+    seen = set() if _seen is None else _seen
+    todo = _atoms_in(e, stop)
+    while todo:
+        nm = todo.pop()
+        if nm in seen:
+            continue
+        seen.add(nm)
+        if nm in params or nm not in binds or (stop and nm in stop):
+            out.add(nm)
+            continue
+        for v in binds[nm]:
+            todo.extend(_atoms_in(v, stop))
+    return out
+
+
+def _keyed_ok(fn: ast.FunctionDef, mod, key: ast.AST, val: ast.AST) -> Tuple[bool, Set[str], Set[str]]:
+    import builtins
+
+    consts = _module_consts(mod) | set(dir(builtins)) | {"DNARegex", "re"}
+    # the key must contain, as the objects themselves, everything the value is computed from; a local that is an element
+    # of the key stands for itself (whatever it was derived from), a projection of a dependency (cls.__name__) does not
+    kd = _bare_key_names(key)
+    if isinstance(key, ast.Name):
+        # key = <local>: what the local was bound to decides (a tuple of names is as good as the tuple itself)
+        binds = [n.value for n in ast.walk(fn) if isinstance(n, ast.Assign) and len(n.targets) == 1 and isinstance(n.targets[0], ast.Name) and n.targets[0].id == key.id]
+        if len(binds) == 1 and isinstance(binds[0], (ast.Tuple, ast.Name, ast.Attribute)):
+            kd = kd | _bare_key_names(binds[0])
+    vd = _param_deps(fn, val, stop=kd) - consts
+    return vd <= kd, vd, kd
 
 
 def _emit(r, label, rule, construct, ok, detail, where, node):
@@ -1012,13 +1248,211 @@ def _has_init_subclass_reset(p, fi, slot) -> bool:
     for c in p.mro(fi.owner):
         if isinstance(c, ClassInfo):
             isub = c.attrs.get("__init_subclass__")
-            if isinstance(isub, FuncInfo):
-                for n in ast.walk(isub.node):
-                    if isinstance(n, ast.Assign):
-                        for t in n.targets:
-                            if isinstance(t, ast.Attribute) and t.attr == slot:
+            if isinstance(isub, FuncInfo) and isub.node.args.args:
+                me = isub.node.args.args[0].arg
+                # the reset must reach every subclass: a statement of the function body itself, unconditional or guarded
+                # only by "the class body did not bind the slot" (slot not in cls.__dict__ / vars(cls))
+                for st in isub.node.body:
+                    assigns = []
+                    if isinstance(st, ast.Assign):
+                        assigns = [st]
+                    elif isinstance(st, ast.If) and not st.orelse and _own_namespace_test(st.test, slot, me):
+                        assigns = [x for x in st.body if isinstance(x, ast.Assign)]
+                    for a in assigns:
+                        for t in a.targets:
+                            if isinstance(t, ast.Attribute) and t.attr == slot and isinstance(t.value, ast.Name) and t.value.id == me \
+                                    and isinstance(a.value, ast.Constant) and a.value.value is None:
+                                # ... and reaches them only if no class below overrides __init_subclass__ without
+                                # chaining to it
+                                for d in p.all_classes():
+                                    if d is c or d.synthetic or not p.is_subclass(d, c):
+                                        continue
+                                    other = d.attrs.get("__init_subclass__")
+                                    if isinstance(other, FuncInfo) and not any(
+                                            isinstance(x, ast.Call) and isinstance(x.func, ast.Attribute) and x.func.attr == "__init_subclass__"
+                                            and isinstance(x.func.value, ast.Call) and isinstance(x.func.value.func, ast.Name) and x.func.value.func.id == "super"
+                                            for x in ast.walk(other.node)):
+                                        return False
                                 return True
     return False
+
+
+def _own_namespace_test(test: ast.expr, slot: str, me: str) -> bool:
+    """`"slot" not in cls.__dict__` / `"slot" not in vars(cls)`"""
+    if not (isinstance(test, ast.Compare) and len(test.ops) == 1 and isinstance(test.ops[0], ast.NotIn)):
+        return False
+    if not (isinstance(test.left, ast.Constant) and test.left.value == slot):
+        return False
+    c = test.comparators[0]
+    if isinstance(c, ast.Attribute) and c.attr == "__dict__" and isinstance(c.value, ast.Name) and c.value.id == me:
+        return True
+    return isinstance(c, ast.Call) and isinstance(c.func, ast.Name) and c.func.id == "vars" and len(c.args) == 1 \
+        and isinstance(c.args[0], ast.Name) and c.args[0].id == me
+
+
+def descriptor_cache_rule(ctx, rule: str):
+    """A descriptor class of the code base that computes a value from the class it is read on and keeps it on that class
+    (`setattr(owner, slot, value)`): the kept value must be looked up in the class's own namespace (vars(owner) /
+    owner.__dict__) -- through getattr / hasattr / owner.<slot> a subclass finds its parent's value and never computes
+    its own."""
+    from .loader import descriptor_kind
+
+    p = ctx.program
+    r = ctx.report
+    used = set()
+    for m in p.modules.values():
+        for ci in m.classes.values():
+            for raw in ci.attrs.values():
+                for q, k in (getattr(raw, "descriptor_kinds", None) or []) if isinstance(raw, FuncInfo) else []:
+                    if k == "class-level-cached":
+                        used.add(q)
+    for q in sorted(used):
+        ci = p.get_class(q)
+        _, get = p.class_attr_def(ci, "__get__")
+        ga = [a.arg for a in get.node.args.posonlyargs + get.node.args.args]
+        owner = ga[2] if len(ga) > 2 else None
+        own_reads, mro_reads = [], []
+        for n in ast.walk(get.node):
+            if isinstance(n, ast.Call) and isinstance(n.func, ast.Name) and n.func.id in ("getattr", "hasattr") and n.args \
+                    and isinstance(n.args[0], ast.Name) and n.args[0].id == owner:
+                mro_reads.append(n)
+            if isinstance(n, ast.Call) and isinstance(n.func, ast.Name) and n.func.id == "vars" and n.args and isinstance(n.args[0], ast.Name) and n.args[0].id == owner:
+                own_reads.append(n)
+            if isinstance(n, ast.Attribute) and n.attr == "__dict__" and isinstance(n.value, ast.Name) and n.value.id == owner:
+                own_reads.append(n)
+            if isinstance(n, ast.Attribute) and isinstance(n.value, ast.Name) and n.value.id == owner and isinstance(n.ctx, ast.Load) \
+                    and n.attr not in ("__dict__", "__name__", "__qualname__", "__module__", "__mro__"):
+                mro_reads.append(n)
+        if mro_reads:
+            r.ob(rule, "%s.__get__#kept-value" % q, False,
+                 "the value %s keeps on the class is looked up through the MRO (`%s`): a subclass read after its parent gets the parent's "
+                 "value and never computes its own" % (q, ast.unparse(mro_reads[0])[:60]), get.where())
+        elif own_reads:
+            r.ob(rule, "%s.__get__#kept-value" % q, True, "", get.where())
+        else:
+            raise AnalysisError("%s: how %s finds the value it keeps on the class is not recognised" % (get.where(), q))
+
+
+def memo_purity_rule(ctx, rule: str):
+    """functools.lru_cache / functools.cache on a function of the code base: the evaluators treat the decorated function as
+    if it were called afresh, which is sound when (1) its result is a function of its arguments -- besides them it reads
+    only constants (module-level names nobody rebinds or fills at call time, class attributes of an argument), (2) the
+    arguments are compared by what they are (a class, an enzyme, a text: not `self` of a record wrapper, whose state the
+    first call would freeze), and (3) what it returns cannot be changed by one caller under the feet of the next (text,
+    number, tuple, frozenset, compiled pattern).  A mutable result or a dependence on call-time state is the violation; a
+    shape not recognised is left undecided."""
+    p = ctx.program
+    r = ctx.report
+    from .decorators import LIB_MEMO
+
+    written_globals: Dict[str, Set[str]] = {}
+    for mn, m in p.modules.items():
+        if not mn.startswith("moclo"):
+            continue
+        names = set(m.assigns)
+        for f in list(m.functions.values()) + [v for ci in m.classes.values() for v in ci.attrs.values() if isinstance(v, FuncInfo)]:
+            for n in ast.walk(f.node):
+                if isinstance(n, ast.Global):
+                    written_globals.setdefault(mn, set()).update(n.names)
+                tgts = n.targets if isinstance(n, ast.Assign) else [n.target] if isinstance(n, ast.AugAssign) else []
+                for t in tgts:
+                    if isinstance(t, ast.Subscript):
+                        root, _ = chain_of(t.value)
+                        if root in names:
+                            written_globals.setdefault(mn, set()).add(root)
+                if isinstance(n, ast.Call) and isinstance(n.func, ast.Attribute) and n.func.attr in MUTATORS:
+                    root, _ = chain_of(n.func.value)
+                    if root in names:
+                        written_globals.setdefault(mn, set()).add(root)
+    n_memo = 0
+    for mn, m in sorted(p.modules.items()):
+        if not mn.startswith("moclo"):
+            continue
+        for f in list(m.functions.values()) + [v for ci in m.classes.values() for v in ci.attrs.values() if isinstance(v, FuncInfo)]:
+            memo = False
+            for d in f.node.decorator_list:
+                try:
+                    dv = p.resolve_expr(m, d.func if isinstance(d, ast.Call) else d)
+                except Exception:
+                    dv = None
+                if isinstance(dv, Ext) and dv.dotted in LIB_MEMO:
+                    memo = True
+            if not memo:
+                continue
+            n_memo += 1
+            params = [a.arg for a in f.node.args.posonlyargs + f.node.args.args + f.node.args.kwonlyargs]
+            if f.owner is not None and f.kind in ("method", "property"):
+                raise AnalysisError("%s: %s memoises a method on its instance; whether the instance's state can change between calls "
+                                    "is not decided by the memo-purity rule" % (f.where(), f.qualname))
+            local = set(params)
+            for n in ast.walk(f.node):
+                if isinstance(n, ast.Name) and isinstance(n.ctx, ast.Store):
+                    local.add(n.id)
+            stale = sorted({n.id for n in ast.walk(f.node) if isinstance(n, ast.Name) and isinstance(n.ctx, ast.Load) and n.id not in local
+                            and n.id in written_globals.get(mn, set())})
+            r.ob(rule, f.qualname + "#inputs", not stale,
+                 "%s is memoised on its arguments but also reads %s, which the module changes at call time: a later call is answered "
+                 "with what an earlier state gave" % (f.qualname, ", ".join(stale)), f.where())
+
+            def immutable(e, depth=3) -> Optional[bool]:
+                if isinstance(e, (ast.Constant, ast.JoinedStr, ast.Compare)):
+                    return True  # (a comparison gives a truth value)
+                if isinstance(e, ast.UnaryOp) and isinstance(e.op, ast.Not):
+                    return True
+                if isinstance(e, ast.BoolOp):
+                    rs = [immutable(x, depth) for x in e.values]
+                    return False if False in rs else (None if None in rs else True)
+                if isinstance(e, ast.Tuple):
+                    rs = [immutable(x, depth) for x in e.elts]
+                    return False if False in rs else (None if None in rs else True)
+                if isinstance(e, (ast.List, ast.Dict, ast.Set, ast.ListComp, ast.DictComp, ast.SetComp)):
+                    return False
+                if isinstance(e, ast.BinOp):
+                    a_, b_ = immutable(e.left, depth), immutable(e.right, depth)
+                    return True if (a_ and b_) else (False if (a_ is False or b_ is False) else None)
+                if isinstance(e, ast.IfExp):
+                    a_, b_ = immutable(e.body, depth), immutable(e.orelse, depth)
+                    return True if (a_ and b_) else (False if (a_ is False or b_ is False) else None)
+                if isinstance(e, ast.Call):
+                    fn_ = ast.unparse(e.func)
+                    if fn_ in ("str", "int", "len", "tuple", "frozenset", "bool", "float", "repr", "re.compile", "DNARegex", "format") or fn_.endswith(
+                            (".join", ".format", ".replace", ".upper", ".lower", ".translate", ".elucidate", ".strip", ".reverse_complement")):
+                        return True
+                    if fn_ in ("list", "dict", "set", "sorted", "collections.OrderedDict", "OrderedDict", "bytearray"):
+                        return False
+                    return None
+                if isinstance(e, ast.Name) and depth > 0:
+                    binds = [n.value for n in ast.walk(f.node) if isinstance(n, ast.Assign) and any(isinstance(t, ast.Name) and t.id == e.id for t in n.targets)]
+                    if binds:
+                        rs = [immutable(b, depth - 1) for b in binds]
+                        return False if False in rs else (None if None in rs else True)
+                    unpack = [n for n in ast.walk(f.node) if isinstance(n, ast.Assign) and any(isinstance(t, (ast.Tuple, ast.List)) and any(
+                        isinstance(x, ast.Name) and x.id == e.id for x in t.elts) for t in n.targets)]
+                    return None
+                return None
+
+            rets = [n.value for n in _own_nodes_of(f.node) if isinstance(n, ast.Return) and n.value is not None]
+            verdicts = [immutable(v) for v in rets]
+            if False in verdicts:
+                bad = rets[verdicts.index(False)]
+                r.ob(rule, f.qualname + "#result", False,
+                     "%s hands every caller the same mutable object (`%s`): what one caller changes, the next one gets" % (f.qualname, ast.unparse(bad)[:80]), f.where())
+            elif None in verdicts or not rets:
+                raise AnalysisError("%s: whether what the memoised %s returns (`%s`) can be modified by a caller is not recognised"
+                                    % (f.where(), f.qualname, ast.unparse(rets[verdicts.index(None)])[:80] if rets else "nothing"))
+            else:
+                r.ob(rule, f.qualname + "#result", True, "", f.where())
+    r.analysed["memoised_functions"] = n_memo
+
+
+def _own_nodes_of(fn):
+    stack = list(fn.body)
+    while stack:
+        n = stack.pop()
+        yield n
+        if isinstance(n, (ast.FunctionDef, ast.AsyncFunctionDef, ast.Lambda, ast.ClassDef)):
+            continue
+        stack.extend(ast.iter_child_nodes(n))
 
 
 def _module_consts(mod) -> Set[str]:
@@ -1262,26 +1696,50 @@ def match_slot_rule(ctx, rule: str):
             if isinstance(node, ast.Call) and isinstance(node.func, ast.Name) and node.func.id == "setattr" and len(node.args) >= 2 \
                     and isinstance(node.args[1], ast.Constant) and node.args[1].value == "_match":
                 r.ob(rule + ".slot-store", "%s@setattr" % mn, False, "setattr(..., '_match', ...) writes the cached match slot", "%s:%d" % (m.relpath, node.lineno))
+    from .loader import descriptor_kind
+
+    def kind_of(raw: FuncInfo):
+        """(names of the decorators, how the value is kept: 'per-descriptor-instance' | 'name-keyed-instance' | 'uncached-instance' | None)"""
+        names, kinds = [], []
+        for d in raw.node.decorator_list:
+            b = p.resolve_expr(raw.module, d.func if isinstance(d, ast.Call) else d)
+            nm = b.dotted if isinstance(b, Ext) else getattr(b, "qualname", repr(b))
+            names.append(nm)
+            if isinstance(b, Ext):
+                kinds.append({"property_cached.cached_property": "per-descriptor-instance", "builtins.property": "uncached-instance",
+                              "functools.cached_property": "name-keyed-instance"}.get(b.dotted))
+            elif isinstance(b, ClassInfo):
+                kinds.append(descriptor_kind(p, b))
+            else:
+                kinds.append(None)
+        return names, (kinds[0] if len(kinds) == 1 else None)
+
     for ci in p.all_classes():
         raw = ci.attrs.get("_match")
         if not isinstance(raw, FuncInfo):
             continue
         n += 1
+        names, kind = kind_of(raw)
+        # an override that reads super()._match: when the definition it reaches keeps its value in the instance dict under
+        # the *name* `_match` (functools.cached_property and its look-alikes), the base class's match is stored before the
+        # override's own checks have run, and once they have raised every later access finds that stored, unscreened match
         chains = any(isinstance(x, ast.Attribute) and x.attr == "_match" and isinstance(x.value, ast.Call) and isinstance(x.value.func, ast.Name) and x.value.func.id == "super"
                      for x in ast.walk(raw.node))
-        kinds = []
-        for d in raw.node.decorator_list:
-            b = p.resolve_expr(raw.module, d.func if isinstance(d, ast.Call) else d)
-            kinds.append(b.dotted if isinstance(b, Ext) else getattr(b, "qualname", repr(b)))
-        overridden = any(isinstance(c.attrs.get("_match"), FuncInfo) for c in p.subclasses(ci))
-        bad = [k for k in kinds if k in ("functools.cached_property",)]
-        ok = not (bad and (chains or overridden))
+        reached, rkind, rnames = None, None, []
+        if chains:
+            o2, above = p.class_attr_def(ci, "_match", after=ci)
+            if isinstance(above, FuncInfo):
+                reached = above
+                rnames, rkind = kind_of(above)
+        ok = not (chains and rkind == "name-keyed-instance")
         r.ob(rule + ".descriptor-kind", raw.qualname, ok,
-             "%s is cached with %s while the _match chain goes through super(): that decorator stores the value in the instance dict under the name `_match`, so the base class's match is cached before the subclass's illegal-site screen runs and a second access returns it unscreened"
-             % (raw.qualname, bad), raw.where())
-        known = [k for k in kinds if k in ("property_cached.cached_property", "builtins.property", "functools.cached_property")]
-        r.ob(rule + ".descriptor-kind", raw.qualname + "#known", bool(known) and len(kinds) == 1,
-             "_match is decorated with %s; only property_cached.cached_property / property are known to keep one value per (descriptor, instance)" % kinds, raw.where())
+             "%s reads super()._match and reaches %s, which is cached with %s: that decorator stores the value in the instance dict under the name `_match`, so the base class's match is cached before the subclass's illegal-site screen runs and a second access returns it unscreened"
+             % (raw.qualname, reached.qualname if reached else "?", rnames), raw.where())
+        if kind is None:
+            raise AnalysisError("%s: _match is decorated with %s; how that decorator keeps the value (per instance and descriptor, per instance and "
+                                "name, not at all) is not recognised" % (raw.where(), names))
+        r.ob(rule + ".descriptor-kind", raw.qualname + "#known", kind in ("per-descriptor-instance", "uncached-instance", "name-keyed-instance"),
+             "_match is decorated with %s (%s)" % (names, kind), raw.where())
     r.floor(rule + ".descriptor-kind", 2)  # the base class's _match; overrides may legitimately come and go
 
 
@@ -1383,6 +1841,8 @@ def record_instance_state_rule(ctx, rule: str, entries):
     r = ctx.report
     ci = p.get_class("moclo.record.CircularRecord")
     classes = [ci] + [c for c in p.all_classes() if c is not ci and not c.synthetic and p.is_subclass(c, ci)]
+    # ... and the mixins / base classes of the repository the record class is put together from
+    classes += [c for c in p.mro(ci) if isinstance(c, ClassInfo) and c not in classes]
     seen, work = set(), []
     for c in classes:
         for name in entries:
